@@ -277,6 +277,8 @@ func (o *c10Oracle) AfterRun(w *World, op *Op, res *RunResult) {
 			w.Hit("refusable-config")
 			if !res.OK() {
 				w.Hit("refusable-config-refused")
+			} else {
+				w.Hit("refusable-config-accepted:" + w.Plan.Meta["refusable"] + ":stacked=" + w.Plan.Meta["stacked-suffix"] + ":bigoid=" + w.Plan.Meta["big-oid"])
 			}
 		}
 		if len(res.Plan) > 0 {
